@@ -3,6 +3,7 @@ import ColaVerif.Basic.GInt
 import ColaVerif.Model.Matmat
 import ColaVerif.Model.Wf
 import ColaVerif.Model.Bound
+import ColaVerif.Model.Index
 
 /-!
 Line-protocol driver: one JSON case per input line, one JSON answer per output line.
@@ -118,6 +119,43 @@ def header (A : Op GInt) : String :=
 
 def absMat (m : MatF GInt) : MatF GInt := fun i j => Op.absZ (m i j)
 
+def kindName : Op GInt → String
+  | .dense .. => "dense" | .tri .. => "tri" | .sparse .. => "sparse" | .scalar .. => "scalar"
+  | .eye .. => "eye" | .prod _ => "prod" | .sum _ => "sum" | .kron _ => "kron" | .kronsum _ => "kronsum"
+  | .bdiag .. => "bdiag" | .diag .. => "diag" | .tridiag .. => "tridiag" | .transpose _ => "T"
+  | .adjoint _ => "H" | .sliced .. => "slice" | .perm .. => "perm" | .concat .. => "concat"
+  | .house .. => "house" | .generic _ => "generic" | .annot .. => "ann"
+
+/-- kind tree of an operator: [kind, annotations, children…] (declaration wrappers are not nodes) -/
+partial def skel (A : Op GInt) : String :=
+  let c := A.core
+  let kids : List (Op GInt) := match c with
+    | .prod Ms => Ms | .sum Ms => Ms | .kron Ms => Ms | .kronsum Ms => Ms | .bdiag Ms _ => Ms
+    | .concat _ Ms => Ms | .transpose B => [B] | .adjoint B => [B] | .sliced B _ _ => [B]
+    | _ => []   -- `generic` keeps only the product function of its argument, not the operator
+  "[" ++ ",".intercalate (["\"" ++ kindName c ++ "\"", showAnns A.anns] ++ kids.map skel) ++ "]"
+
+def showVec (n : Nat) (v : Nat → GInt) : String :=
+  "[" ++ ",".intercalate ((List.range n).map fun i => showZ (v i)) ++ "]"
+
+def jGIx (j : Json) : E GIx := do
+  match j.getObjVal? "i" with
+  | .ok v => pure (.int (← jInt v))
+  | _ =>
+    match j.getObjVal? "l" with
+    | .ok l => do pure (.list (← (← jArr l).toList.mapM jInt))
+    | _ => do pure (.ix (← jIx j))
+
+def showRes (r : GRes GInt) : String :=
+  match r with
+  | .scalar z => "{\"kind\":\"scalar\",\"value\":" ++ showZ z ++ "}"
+  | .vec n v => "{\"kind\":\"vec\",\"value\":" ++ showVec n v ++ "}"
+  | .op B => "{\"kind\":\"op\",\"rows\":" ++ toString B.rows ++ ",\"cols\":" ++ toString B.cols
+      ++ ",\"value\":" ++ showMat B.rows B.cols B.td.f ++ ",\"skel\":" ++ skel B ++ ",\"anns\":" ++ showAnns B.anns ++ "}"
+  | .err e => "{\"kind\":\"err\",\"value\":\"" ++ e ++ "\"}"
+
+def parseTower (s : String) : List Bool := s.toList.map (fun ch => ch == 'T')
+
 def handle (j : Json) : E String := do
   let id := (j.getObjVal? "id").toOption.getD .null
   let call ← jStr ((j.getObjVal? "call").toOption.getD .null)
@@ -145,7 +183,23 @@ def handle (j : Json) : E String := do
       let spec := A.den.f
       let bound := maxAbsMat A.rows A.cols A.absOp.td.f
       pure ("{" ++ pre ++ s!",\"code\":{showMat A.rows A.cols code},\"spec\":{showMat A.rows A.cols spec},\"absbound\":{bound}" ++ "}")
-  | "info" => pure ("{" ++ pre ++ "}")
+  | "info" => pure ("{" ++ pre ++ s!",\"skel\":{skel A},\"den\":{showMat A.rows A.cols A.den.f}" ++ "}")
+  | "tower" => do
+      let tw := parseTower (← jStr ((j.getObjVal? "tower").toOption.getD .null))
+      let B := A.tower tw
+      let code := B.td.f
+      let spec := (forceV B.rows B.cols (Op.towerDen A.den.f tw)).f
+      let bound := maxAbsMat B.rows B.cols B.absOp.td.f
+      pure ("{" ++ pre ++ s!",\"rrows\":{B.rows},\"rcols\":{B.cols},\"rdtype\":\"{B.dtype.toString}\",\"ranns\":{showAnns B.anns},\"skel\":{skel B},\"code\":{showMat B.rows B.cols code},\"spec\":{showMat B.rows B.cols spec},\"absbound\":{bound}" ++ "}")
+  | "getitem" => do
+      let ids ← (← jArr ((j.getObjVal? "ids").toOption.getD .null)).toList.mapM jGIx
+      let code := A.getitem ids
+      let spec := Op.npIndex A.rows A.cols A.den.f ids
+      let specS := match spec with
+        | .op B => "{\"kind\":\"op\",\"rows\":" ++ toString B.rows ++ ",\"cols\":" ++ toString B.cols ++ ",\"value\":" ++ showMat B.rows B.cols B.den.f ++ "}"
+        | r => showRes r
+      let bound := maxAbsMat A.rows A.cols A.absOp.td.f
+      pure ("{" ++ pre ++ s!",\"code\":{showRes code},\"spec\":{specS},\"absbound\":{bound}" ++ "}")
   | c => throw s!"unknown call {c}"
 
 partial def loop (h : IO.FS.Stream) (out : IO.FS.Stream) : IO Unit := do
